@@ -341,7 +341,7 @@ def run_d4(facts, rep, tier):
                     top = a
                 else:
                     break
-            lens_ok = False
+            lens_ok = re.search(r"\(\$P([01])[^ ()]*\.len\(\) Eq \$P(?!\1)[01][^ ()]*\.len\(\)\)", cn.r(top)) is not None
             for x, _ in walk(top):
                 if x.get("k") == "bin" and x.get("op") == "Eq":
                     l, r = strip_refs(x["l"]), strip_refs(x["r"])
